@@ -43,6 +43,22 @@ func (c *chunkReader) Read(p []byte) (int, error) {
 
 // readerFor returns either a plain bytes.Reader or a short-read reader.
 func readerFor(rng *rand.Rand, data []byte) (io.Reader, string) {
+	switch rng.Intn(5) {
+	case 3, 4:
+		// a seekable source that is already positioned behind something else (a container's own
+		// preamble, an earlier payload): decoding starts where the reader stands
+		pre := make([]byte, 1+rng.Intn(300))
+		rng.Read(pre)
+		all := append(pre, data...)
+		if rng.Intn(2) == 0 {
+			rd := bytes.NewReader(all)
+			rd.Seek(int64(len(pre)), io.SeekStart)
+			return rd, fmt.Sprintf("bytes.Reader positioned behind a %d-byte preamble", len(pre))
+		}
+		rd := io.NewSectionReader(bytes.NewReader(all), 0, int64(len(all)))
+		io.CopyN(io.Discard, rd, int64(len(pre)))
+		return rd, fmt.Sprintf("io.SectionReader positioned behind a %d-byte preamble", len(pre))
+	}
 	switch rng.Intn(3) {
 	case 0:
 		return &chunkReader{data: data, rng: rand.New(rand.NewSource(rng.Int63())), max: 1}, "one-byte-reads"
